@@ -574,6 +574,21 @@ def worker(ctx, job):
     from vf.flo import clones as C
     for seed in job.get("rearing", []):
         rearing_clone_check(ctx, random.Random(seed))
+    # two clones of one moot framer (under one frame, or in two framers under the same clone tag) whose transitions wait
+    # for updates / changes of the same share, with and without a named mark: each clone must run as the framer would
+    # run alone -- an absolute reference (the marker-rule model of the C20 check), because a stand-in framer built from
+    # the same text would share any confusion between the marks of distinct framers
+    if job.get("twins"):
+        from vf.checks import c20
+        opts = c20.need_opts()
+        for seed in job["twins"]:
+            nf = len(ctx.fails)
+            c20.check_case(ctx, c20.random_case(random.Random(seed), opts, twin=True))
+            for f in ctx.fails[nf:]:
+                f["key"] = "twin-clones/" + f["key"]
+            for k in list(ctx.fail_counts):
+                if k.startswith("marker-condition/"):
+                    ctx.fail_counts["twin-clones/" + k] = ctx.fail_counts.get("twin-clones/" + k, 0) + ctx.fail_counts.pop(k)
     for seed in job["seeds"]:
         rng = random.Random(seed)
         case = C.gen_case(rng, job.get("opt"))
@@ -593,7 +608,10 @@ def run(ctx):
     seeds = [ctx.rng.randrange(1 << 30) for _ in range(n)]
     k = 14
     rearing = [ctx.rng.randrange(1 << 30) for _ in range(ctx.pick(160, 2400))]
-    ctx.shard([{"seeds": seeds[i::k], "rearing": rearing[i::k]} for i in range(k)], timeout=ctx.pick(200, 900), procs=k)
+    twins = [ctx.rng.randrange(1 << 30) for _ in range(ctx.pick(240, 6000))]
+    ctx.shard([{"seeds": seeds[i::k], "rearing": rearing[i::k], "twins": twins[i::k]} for i in range(k)], timeout=ctx.pick(200, 900), procs=k)
+    ctx.floor("twin_clones_in_one_frame", 30)
+    ctx.floor("twin_clones_in_two_framers", 30)
     ctx.floor("rearing_clone_cycles", ctx.pick(200, 3000))
     ctx.floor("helpers_entered_in_cycles", ctx.pick(100, 1500))
     scale = ctx.pick(1, 12)         # thorough runs 18 times the quick number of cases
